@@ -4,6 +4,8 @@ import RichModel.Lemmas.LayoutFrames
 import RichModel.Lemmas.LayoutPanel
 import RichModel.Lemmas.LayoutTextNoWrap
 import RichModel.Lemmas.LayoutSmin
+import RichModel.Lemmas.LayoutBelowMin
+import RichModel.Lemmas.LayoutPanelAny
 /-!
 The cases of the structural induction behind C01 (`render_fits`) that do not involve a table: text, the framing
 renderables, the transparent wrappers, groups, rule, bars, tree.  Each case is a lemma `good_…`; the pass-through
@@ -36,15 +38,16 @@ theorem fits_mono (cw : Char → Nat) (w w' : Nat) (segs : List Seg) (h : Fits c
 theorem fits_of_lines_le (cw : Char → Nat) (w : Nat) (segs : List Seg)
     (h : ∀ l ∈ splitLines segs, lineLength cw l ≤ w) : Fits cw w segs := (fits_iff_lines cw w segs).mpr h
 
-/-- The induction statement for one tree: in the domain and at or above the structural minimum every line fits, and a
-statically closed renderable ends its last line. -/
+/-- The induction statement for one tree: in the domain NO LINE IS WIDER THAN `max w (smin r)` — the available width when it is at or
+above the structural minimum, the structural minimum itself below it — and a statically closed renderable ends its last line. -/
 def Good (cfg : Cfg) (r : R) : Prop :=
-  ∀ (o : Opts) (w : Nat), 1 ≤ w → smin cfg.cw r ≤ w → Dom cfg r o w →
-    Fits cfg.cw w (render cfg r o w) ∧ (closedR r = true → Closed (render cfg r o w))
+  ∀ (o : Opts) (w : Nat), 1 ≤ w → Dom cfg r o w →
+    Fits cfg.cw (max w (smin cfg.cw r)) (render cfg r o w) ∧ (closedR r = true → Closed (render cfg r o w))
 
 def GoodL (cfg : Cfg) (rs : List R) : Prop :=
-  ∀ (o : Opts) (w : Nat), 1 ≤ w → sminMax cfg.cw rs ≤ w → DomL cfg rs o w →
-    Fits cfg.cw w (renderL cfg rs o w) ∧ (closedL rs = true → Closed (renderL cfg rs o w))
+  ∀ (o : Opts) (w : Nat), 1 ≤ w → DomL cfg rs o w →
+    Fits cfg.cw (max w (sminMax cfg.cw rs)) (renderL cfg rs o w) ∧ (closedL rs = true → Closed (renderL cfg rs o w))
+
 
 theorem renderAt_chOf (cfg : Cfg) (r : R) (o : Opts) (x : Int) (n : Nat) (hx : x = (n : Int)) (hn : 1 ≤ n) :
     (chOf cfg r o).renderAt x = render cfg r o n := by
@@ -52,42 +55,6 @@ theorem renderAt_chOf (cfg : Cfg) (r : R) (o : Opts) (x : Int) (n : Nat) (hx : x
   unfold Child.renderAt chOf
   have : ¬ ((n : Int) < 1) := by omega
   simp only [this, if_false, Int.toNat_natCast]
-
-/-! ### text -/
-
-theorem good_text (cfg : Cfg) (ok : CfgOk cfg) (t : T) : Good cfg (.text t) := by
-  intro o w hw _ hd
-  rw [render]
-  rw [Dom] at hd
-  refine ⟨text_fits cfg ok.hsp ok.h2 ok.hel ok.hp t o w hw hd.1 hd.2, ?_⟩
-  intro hc
-  rw [closedR] at hc
-  apply text_closed cfg ok.hp t o w
-  simpa [textClosed] using hc
-
-theorem good_str (cfg : Cfg) (ok : CfgOk cfg) (t : T) : Good cfg (.str t) := by
-  intro o w hw _ hd
-  rw [render]
-  rw [Dom] at hd
-  refine ⟨text_fits cfg ok.hsp ok.h2 ok.hel ok.hp t o w hw hd.1 hd.2, ?_⟩
-  intro hc
-  rw [closedR] at hc
-  apply text_closed cfg ok.hp t o w
-  simpa [textClosed] using hc
-
-/-! ### padding, panel -/
-
-theorem good_padding (cfg : Cfg) (ok : CfgOk cfg) (p : PadDims) (e : Bool) (c : R) : Good cfg (.padding p e c) := by
-  intro o w _ hs _
-  rw [render, ok.hcw]
-  rw [smin] at hs
-  have hpos := smin_pos cfg.cw c
-  constructor
-  · apply fits_of_lines_le
-    have := padding_lines_le cfg.v p e (chOf cfg c o) (w : Int) (by omega) (fun k => (chOf_measureAt cfg c o k).1)
-    simpa [chOf] using this
-  · intro _
-    exact padding_closed cfg.v p e (chOf cfg c o) (w : Int)
 
 theorem smin_panel_ge (cw : Char → Nat) (o : PanelOpts) (c : R) :
     2 + smin cw c ≤ smin cw (.panel o c) ∧ (o.title ≠ [] → 4 ≤ smin cw (.panel o c)) := by
@@ -102,125 +69,174 @@ theorem smin_panel_ge (cw : Char → Nat) (o : PanelOpts) (c : R) :
     simp only [this, Bool.false_eq_true, if_false]
     omega
 
+theorem alignInner_le (env : Env) (v : Frames.Variant) (o : AlignOpts) (c : Ch) (w : Int) : alignInnerWidth env v o c w ≤ w := by
+  unfold alignInnerWidth
+  exact Int.min_le_right _ _
+
+theorem good_text (cfg : Cfg) (ok : CfgOk cfg) (t : T) : Good cfg (.text t) := by
+  intro o w hw hd
+  rw [render]
+  rw [Dom] at hd
+  refine ⟨fits_mono _ _ _ _ (text_fits cfg ok.hsp ok.h2 ok.hel ok.hp t o w hw hd.1 hd.2) (Nat.le_max_left _ _), ?_⟩
+  intro hc
+  rw [closedR] at hc
+  apply text_closed cfg ok.hp t o w
+  simpa [textClosed] using hc
+
+theorem good_str (cfg : Cfg) (ok : CfgOk cfg) (t : T) : Good cfg (.str t) := by
+  intro o w hw hd
+  rw [render]
+  rw [Dom] at hd
+  refine ⟨fits_mono _ _ _ _ (text_fits cfg ok.hsp ok.h2 ok.hel ok.hp t o w hw hd.1 hd.2) (Nat.le_max_left _ _), ?_⟩
+  intro hc
+  rw [closedR] at hc
+  apply text_closed cfg ok.hp t o w
+  simpa [textClosed] using hc
+
+theorem good_padding (cfg : Cfg) (ok : CfgOk cfg) (p : PadDims) (e : Bool) (c : R) : Good cfg (.padding p e c) := by
+  intro o w _ _
+  rw [render, ok.hcw]
+  constructor
+  · apply fits_mono _ w _ _ _ (Nat.le_max_left _ _)
+    apply fits_of_lines_le
+    have := padding_lines_le_any cfg.v p e (chOf cfg c o) (w : Int) (by omega) (fun k => (chOf_measureAt cfg c o k).1)
+    simpa [chOf] using this
+  · intro _
+    exact padding_closed cfg.v p e (chOf cfg c o) (w : Int)
+
 theorem good_panel (cfg : Cfg) (ok : CfgOk cfg) (po : PanelOpts) (c : R) : Good cfg (.panel po c) := by
-  intro o w _ hs _
+  intro o w hw _
   rw [render]
   have hge := smin_panel_ge cfg.cw po c
   have hpos := smin_pos cfg.cw c
   split
   · rename_i s heq
-    have := panelL_fits cfg ok.hcw ok.hp ok.htc po (chOf cfg c o) (w : Int) s heq (by omega)
-      (fun ht => by have := hge.2 ht; omega) (fun k => (chOf_measureAt cfg c o k).2)
-    exact ⟨by simpa using this.1, fun _ => this.2⟩
+    have := panelL_fits_any cfg ok.hcw ok.hp ok.htc po (chOf cfg c o) (w : Int) s heq (by omega)
+      (fun k => chOf_measureAt cfg c o k)
+    refine ⟨fits_mono _ _ _ _ this.1 ?_, fun _ => this.2⟩
+    have hw' : ((w : Nat) : Int).toNat = w := by omega
+    rw [hw']
+    split
+    · omega
+    · rename_i hne
+      have := hge.2 hne
+      omega
   · rw [ok.hp]
     exact ⟨fits_nil _ _, fun _ => closed_nil⟩
 
-/-! ### the pass-through constructors -/
-
-theorem alignInner_le (env : Env) (v : Frames.Variant) (o : AlignOpts) (c : Ch) (w : Int) : alignInnerWidth env v o c w ≤ w := by
-  unfold alignInnerWidth
-  exact Int.min_le_right _ _
-
 theorem good_align (cfg : Cfg) (ok : CfgOk cfg) (ao : AlignOpts) (c : R) (ih : Good cfg c) : Good cfg (.align ao c) := by
-  intro o w _ _ hd
-  rw [render, ok.hcw]
+  intro o w _ hd
+  rw [render, smin]
   rw [Dom] at hd
-  obtain ⟨hsm, hdc⟩ := hd
-  have hpos := smin_pos cfg.cw c
   have hle := alignInner_le cfg.env cfg.v ao (chOf cfg c o) (w : Int)
-  generalize hiw : alignInnerWidth cfg.env cfg.v ao (chOf cfg c o) (w : Int) = iwI at hsm hdc hle
-  have h1 : 1 ≤ iwI.toNat := by omega
-  obtain ⟨hf, _⟩ := ih o iwI.toNat h1 hsm hdc
+  generalize hiw : alignInnerWidth cfg.env cfg.v ao (chOf cfg c o) (w : Int) = iwI at hd hle
+  have hchild : ∀ l ∈ splitLines ((chOf cfg c o).renderAt iwI), lineLength cwR l ≤ max w (smin cwR c) := by
+    by_cases h1 : 1 ≤ iwI.toNat
+    · rw [renderAt_chOf cfg c o iwI iwI.toNat (by omega) h1]
+      obtain ⟨hf, _⟩ := ih o iwI.toNat h1 hd
+      intro l hl
+      have := (fits_iff_lines cfg.cw _ _).mp hf l hl
+      rw [ok.hcw] at this
+      omega
+    · have : (chOf cfg c o).renderAt iwI = [] := by
+        unfold Child.renderAt
+        have : iwI < 1 := by omega
+        simp [this]
+      rw [this]
+      intro l hl
+      have : splitLines ([] : List Seg) = [] := rfl
+      rw [this] at hl; cases hl
+  rw [ok.hcw]
   constructor
   · apply fits_of_lines_le
-    have := align_lines_le cfg.env cfg.v ao (chOf cfg c o) (w : Int) (by omega) (by
-      rw [hiw, renderAt_chOf cfg c o iwI iwI.toNat (by omega) h1]
-      intro l hl
-      have := (fits_iff_lines cfg.cw iwI.toNat _).mp hf l hl
-      rw [ok.hcw] at this
-      omega)
+    have := align_lines_le_bound cfg.env cfg.v ao (chOf cfg c o) (w : Int) (max w (smin cwR c)) (by omega) (by omega)
+      (by rw [hiw]; exact hchild)
     simpa [chOf] using this
   · intro _
     exact align_closed cfg.env cfg.v ao (chOf cfg c o) (w : Int)
 
-theorem good_constrain (cfg : Cfg) (ok : CfgOk cfg) (k : Option Nat) (c : R) (ih : Good cfg c) : Good cfg (.constrain k c) := by
-  intro o w hw _ hd
-  rw [render]
-  have hpos := smin_pos cfg.cw c
+theorem good_constrain (cfg : Cfg) (k : Option Nat) (c : R) (ih : Good cfg c) : Good cfg (.constrain k c) := by
+  intro o w hw hd
+  rw [render, smin]
   cases k with
   | none =>
     rw [Dom] at hd
-    obtain ⟨hsm, hdc⟩ := hd
     have hr : constrainConsole (Option.map Int.ofNat none) ⟨fun x => measure cfg c x, fun x => render cfg c o x⟩ (w : Int)
         = render cfg c o w := by
       simp only [Option.map_none, constrainConsole]
       exact renderAt_chOf cfg c o _ w rfl hw
     rw [closedR, hr]
-    exact ih o w hw hsm hdc
+    exact ih o w hw hd
   | some k =>
     rw [Dom] at hd
-    obtain ⟨hsm, hdc⟩ := hd
-    have h1 : 1 ≤ min k w := by omega
-    have hr : constrainConsole (Option.map Int.ofNat (some k)) ⟨fun x => measure cfg c x, fun x => render cfg c o x⟩ (w : Int)
-        = render cfg c o (min k w) := by
-      simp only [Option.map_some, constrainConsole]
-      exact renderAt_chOf cfg c o _ (min k w) (by simp only [Int.ofNat_eq_natCast]; omega) h1
-    obtain ⟨hf, hc⟩ := ih o (min k w) h1 hsm hdc
-    rw [closedR, hr]
-    exact ⟨fits_mono _ _ _ _ hf (Nat.min_le_right k w), hc⟩
+    by_cases h1 : 1 ≤ min k w
+    · have hr : constrainConsole (Option.map Int.ofNat (some k)) ⟨fun x => measure cfg c x, fun x => render cfg c o x⟩ (w : Int)
+          = render cfg c o (min k w) := by
+        simp only [Option.map_some, constrainConsole]
+        exact renderAt_chOf cfg c o _ (min k w) (by simp only [Int.ofNat_eq_natCast]; omega) h1
+      obtain ⟨hf, hc⟩ := ih o (min k w) h1 hd
+      rw [closedR, hr]
+      exact ⟨fits_mono _ _ _ _ hf (by omega), hc⟩
+    · have hr : constrainConsole (Option.map Int.ofNat (some k)) ⟨fun x => measure cfg c x, fun x => render cfg c o x⟩ (w : Int) = [] := by
+        simp only [Option.map_some, constrainConsole, Child.renderAt]
+        have : min (Int.ofNat k) (w : Int) < 1 := by simp only [Int.ofNat_eq_natCast]; omega
+        rw [if_pos this]
+      rw [hr]
+      exact ⟨fits_nil _ _, fun _ => closed_nil⟩
 
 theorem good_styled (cfg : Cfg) (c : R) (ih : Good cfg c) : Good cfg (.styled c) := by
-  intro o w hw hs hd
-  rw [render, closedR]
-  rw [smin] at hs
+  intro o w hw hd
+  rw [render, closedR, smin]
   rw [Dom] at hd
-  exact ih o w hw hs hd
+  exact ih o w hw hd
 
 theorem good_cast (cfg : Cfg) (c : R) (ih : Good cfg c) : Good cfg (.cast c) := by
-  intro o w hw hs hd
-  rw [render, closedR]
-  rw [smin] at hs
+  intro o w hw hd
+  rw [render, closedR, smin]
   rw [Dom] at hd
-  exact ih o w hw hs hd
+  exact ih o w hw hd
 
 theorem good_opaque (cfg : Cfg) (c : R) (ih : Good cfg c) : Good cfg (.opaque c) := by
-  intro o w hw hs hd
-  rw [render, closedR]
-  rw [smin] at hs
+  intro o w hw hd
+  rw [render, closedR, smin]
   rw [Dom] at hd
-  exact ih o w hw hs hd
+  exact ih o w hw hd
 
 theorem good_group (cfg : Cfg) (fit : Bool) (items : List R) (ih : GoodL cfg items) : Good cfg (.group fit items) := by
-  intro o w hw hs hd
-  rw [render, closedR]
-  rw [smin] at hs
+  intro o w hw hd
+  rw [render, closedR, smin]
   rw [Dom] at hd
-  exact ih o w hw (by omega) hd
+  obtain ⟨hf, hc⟩ := ih o w hw hd
+  exact ⟨fits_mono _ _ _ _ hf (by omega), hc⟩
 
 theorem goodL_nil (cfg : Cfg) : GoodL cfg [] := by
-  intro o w _ _ _
+  intro o w _ _
   rw [renderL]
   exact ⟨fits_nil _ _, fun _ => closed_nil⟩
 
 theorem goodL_cons (cfg : Cfg) (r : R) (rs : List R) (ih : Good cfg r) (ihL : GoodL cfg rs) : GoodL cfg (r :: rs) := by
-  intro o w hw hs hd
-  rw [renderL]
-  rw [sminMax] at hs
+  intro o w hw hd
+  rw [renderL, sminMax]
   rw [DomL] at hd
   obtain ⟨hd1, hcl, hd2⟩ := hd
-  obtain ⟨hf1, hc1⟩ := ih o w hw (by omega) hd1
-  obtain ⟨hf2, hc2⟩ := ihL o w hw (by omega) hd2
+  obtain ⟨hf1, hc1⟩ := ih o w hw hd1
+  obtain ⟨hf2, hc2⟩ := ihL o w hw hd2
+  have hf1' := fits_mono _ _ (max w (max (smin cfg.cw r) (sminMax cfg.cw rs))) _ hf1 (by omega)
+  have hf2' := fits_mono _ _ (max w (max (smin cfg.cw r) (sminMax cfg.cw rs))) _ hf2 (by omega)
   constructor
   · rcases hcl with rfl | hcl
     · rw [renderL]
-      exact fits_append_nil_right _ _ _ hf1
-    · exact fits_append _ _ _ _ (hc1 hcl) hf1 hf2
+      exact fits_append_nil_right _ _ _ hf1'
+    · exact fits_append _ _ _ _ (hc1 hcl) hf1' hf2'
   · intro hc
     rw [closedL] at hc
     simp only [Bool.and_eq_true] at hc
     exact closed_append _ _ (hc1 hc.1) (hc2 hc.2)
 
-/-! ### rule, bars, tree -/
+/-- the cases that never looked at the structural minimum -/
+theorem good_of_any (cfg : Cfg) (r : R)
+    (h : ∀ (o : Opts) (w : Nat), 1 ≤ w → Dom cfg r o w → Fits cfg.cw w (render cfg r o w) ∧ (closedR r = true → Closed (render cfg r o w))) :
+    Good cfg r := fun o w hw hd => ⟨fits_mono _ _ _ _ (h o w hw hd).1 (Nat.le_max_left _ _), (h o w hw hd).2⟩
 
 theorem ruleText_snd (cw : Char → Nat) (env : Env) (v : Frames.Variant) (o : RuleOpts) (w : Int) :
     (ruleText cw env v o w).2 = if o.title.isEmpty then ['\n'] else o.endS := by
@@ -239,7 +255,8 @@ theorem stripControl_cellLen_le (cw : Char → Nat) (s : List Char) : cellLen cw
     · simp only [cellLen, List.map_cons, List.sum_cons] at ih ⊢; omega
 
 theorem good_rule (cfg : Cfg) (ok : CfgOk cfg) (ro : RuleOpts) : Good cfg (.rule ro) := by
-  intro o w hw _ hd
+  apply good_of_any
+  intro o w hw hd
   rw [render]
   rw [Dom] at hd
   obtain ⟨hov, hend⟩ := hd
@@ -293,7 +310,8 @@ theorem good_rule (cfg : Cfg) (ok : CfgOk cfg) (ro : RuleOpts) : Good cfg (.rule
       · exact hn
 
 theorem good_bar (cfg : Cfg) (ok : CfgOk cfg) (bo : BarOpts) : Good cfg (.bar bo) := by
-  intro o w hw _ hd
+  apply good_of_any
+  intro o w hw hd
   rw [render, ok.hcw]
   rw [Dom] at hd
   obtain ⟨h1, h2, h3, h4⟩ := hd
@@ -305,7 +323,8 @@ theorem good_bar (cfg : Cfg) (ok : CfgOk cfg) (bo : BarOpts) : Good cfg (.bar bo
     exact bar_closed bo (w : Int)
 
 theorem good_progress (cfg : Cfg) (ok : CfgOk cfg) (po : ProgressOpts) : Good cfg (.progressBar po) := by
-  intro o w hw _ hd
+  apply good_of_any
+  intro o w hw hd
   rw [render, ok.hcw]
   rw [Dom] at hd
   obtain ⟨h1, h2, h3⟩ := hd
@@ -318,13 +337,15 @@ theorem good_progress (cfg : Cfg) (ok : CfgOk cfg) (po : ProgressOpts) : Good cf
     cases hc
 
 theorem good_tree (cfg : Cfg) (ok : CfgOk cfg) (root : TNode) : Good cfg (.tree root) := by
-  intro o w _ _ _
+  intro o w _ _
   rw [render, ok.hcw]
   constructor
-  · apply fits_of_lines_le
+  · apply fits_mono _ w _ _ _ (Nat.le_max_left _ _)
+    apply fits_of_lines_le
     have := tree_lines_le cfg.env (nodeR cfg root o) (w : Int)
     simpa using this
   · intro _
     exact tree_closed cfg.env (nodeR cfg root o) (w : Int)
+
 
 end RichModel.Layout
